@@ -46,6 +46,23 @@ CHECKS = {
             "once, serially, in order.",
             "A source line of the listed racy region is the atom of interleaving; bounded by K and E (levels completed are in the evidence).",
             "DESIGN.md 3/C06"),
+    "C07": ("model_checking", "vrt+hbfs", "explicit-state history BFS on real GEM handlers with trace invariants",
+            "Every history over {enable, disable, link selected, link lost, inbound S1F13, S1F14 with COMMACK 0/1 and latest/stale/alien system "
+            "bytes, S1F1, a user-callback primary, timer expiry} up to the exhaustive depth, then BFS over canonical states, is executed on "
+            "fresh real GemHostHandler and GemEquipmentHandler objects (real HsmsProtocol underneath). Invariants: COMMUNICATING only after a "
+            "completed S1F13/S1F14 exchange with COMMACK 0 on the current link (and a valid exchange does establish), link loss/disable leave "
+            "it, no callback runs while not communicating, and from every reached state a retry S1F13 appears within T3 + delay (bounded "
+            "liveness probe in virtual time).",
+            "Default schedule per event; virtual timers fire only through the explicit tick event; a stale S1F14 of the same link may or may not establish.",
+            "DESIGN.md 3/C07"),
+    "C08": ("model_checking", "vrt+hbfs", "exhaustive enumeration of inbound message headers/bodies executed on real handlers (depth-1..n histories from COMMUNICATING)",
+            "Real host and equipment handlers are driven to COMMUNICATING under the virtual runtime; every stream x function x W header "
+            "(boundary function set quick, all 65 536 thorough), every catalogued function with well-formed/truncated/wrong-type/trailing bodies "
+            "(forward and reverse order) and user callbacks that reply / raise / return None are injected; the frames written are parsed by the "
+            "reference codec: exactly one reply with the request's system bytes (function+1 or F0 abort), S9F5 with the exact header for "
+            "functions without callback, nothing for W=0.",
+            "Reply bodies are not constrained beyond S9F5's MHEAD; histories are batches of up to 128 messages per fresh handler.",
+            "DESIGN.md 3/C08"),
 }
 
 NOT_YET = "check not built yet in this revision of /verif (see DESIGN.md section 6 build order)"
